@@ -85,6 +85,85 @@ class InputModel:
         return out
 
 
+def forbidden_variants(model, vars_, assignment):
+    """Assignments that are INVALID for the declared types: null / missing key at every non-null position reachable in
+    `assignment`, a null / second / no member in every @oneOf value. Yields (description, path, variant)."""
+    import copy
+    schema = model.schema
+
+    def positions(t, v, path):
+        nn = t[0] == "NN"
+        inner = t[1] if nn else t
+        if nn:
+            yield ("non_null", path)
+        if v is None:
+            return
+        if inner[0] == "L":
+            for i, x in enumerate(v):
+                yield from positions(inner[1], x, path + [i])
+            return
+        tn = inner[1]
+        if schema.kind(tn) != "INPUT_OBJECT":
+            return
+        td = schema.types[tn]
+        if td.one_of:
+            yield ("one_of", path)
+            return
+        for f in td.fields:
+            if f.name in v:
+                yield from positions(f.type, v[f.name], path + [f.name])
+
+    def put(root, path, value, delete=False):
+        r = copy.deepcopy(root)
+        cur = r
+        for k in path[:-1]:
+            cur = cur[k]
+        if delete:
+            del cur[path[-1]]
+        else:
+            cur[path[-1]] = value
+        return r
+
+    def get(root, path):
+        cur = root
+        for k in path:
+            cur = cur[k]
+        return cur
+
+    for n, t in vars_:
+        for kind, path in positions(t, assignment.get(n), [n]):
+            if kind == "non_null":
+                yield ("null at a non-null position", path, put(assignment, path, None))
+                if isinstance(path[-1], str):
+                    yield ("key deleted at a non-null position", path, put(assignment, path, None, delete=True))
+            else:
+                v = get(assignment, path)
+                (k, val), = v.items()
+                td = None
+                yield ("@oneOf member null", path, put(assignment, path, {k: None}))
+                yield ("@oneOf without a member", path, put(assignment, path, {}))
+                other = next((f for f in _oneof_fields(model, vars_, assignment, path) if f != k), None)
+                if other is not None:
+                    yield ("@oneOf with two members", path, put(assignment, path, {k: val, other: val}))
+
+
+def _oneof_fields(model, vars_, assignment, path):
+    """Member names of the @oneOf type at `path` (walks the declared types along the path)."""
+    schema = model.schema
+    t = dict(vars_)[path[0]]
+    for k in path[1:]:
+        inner = t[1] if t[0] == "NN" else t
+        if isinstance(k, int):
+            t = inner[1]
+        else:
+            t = schema.types[inner[1]].field(k).type
+    inner = t[1] if t[0] == "NN" else t
+    while inner[0] == "L":
+        inner = inner[1]
+        inner = inner[1] if inner[0] == "NN" else inner
+    return [f.name for f in schema.types[inner[1]].fields]
+
+
 class _Drop:
     pass
 
@@ -149,6 +228,7 @@ def run(tier):
     farm.build()
     model = InputModel(schema)
     reqs, meta = [], []
+    neg_reqs, neg_meta = [], []
     vec_cache = {}
     for m in mods:
         if not m["case"]:
@@ -181,6 +261,18 @@ def run(tier):
         for choices, labels, assignment in vecs:
             reqs.append({"case": m["case"], "module": "op", "what": "vars", "arg": assignment if m["vars"] else None})
             meta.append((m, assignment))
+        # values of `Variables` that must not exist: built from the richest assignment and (for reach) from the vectors
+        # that differ from it in one choice
+        if m["vars"]:
+            seenf = set()
+            for choices, labels, assignment in vecs[:(3 if tier == "quick" else 60)]:
+                for desc, path, variant in forbidden_variants(model, m["vars"], assignment):
+                    k = json.dumps([desc, variant], sort_keys=True)
+                    if k in seenf:
+                        continue
+                    seenf.add(k)
+                    neg_reqs.append({"case": m["case"], "module": "op", "what": "vars", "arg": variant})
+                    neg_meta.append((m, desc, path, variant))
     log(f"[C04] {len(mods)} modules, {len(reqs)} assignments")
     fres = farm.run(reqs)
     distinct = set()
@@ -218,15 +310,41 @@ def run(tier):
             per[key] = per.get(key, 0) + 1
             if per[key] <= 3:
                 rep.violation("variables_differ_from_model", label, problems)
+    # ---- forbidden values: an accepted invalid assignment is a `Variables` value that serialises to invalid JSON
+    nres = farm.run(neg_reqs)
+    neg_accepted = 0
+    for (m, desc, path, variant), r in zip(neg_meta, nres):
+        if not r or not r.get("ok"):
+            outcomes["forbidden_rejected"] = outcomes.get("forbidden_rejected", 0) + 1
+            continue
+        neg_accepted += 1
+        got = json.loads(r["out"]).get("variables")
+        cur, present = got, True
+        for k in path:
+            try:
+                cur = cur[k]
+            except (KeyError, IndexError, TypeError):
+                present = False
+                break
+        bad = (not present) or cur is None or (desc.startswith("@oneOf") and (not isinstance(cur, dict) or len(cur) != 1 or None in cur.values()))
+        outcomes["forbidden_accepted_" + ("invalid_output" if bad else "repaired_output")] = outcomes.get("forbidden_accepted_" + ("invalid_output" if bad else "repaired_output"), 0) + 1
+        if bad:
+            key = (m["case"], "neg")
+            per[key] = per.get(key, 0) + 1
+            if per[key] <= 3:
+                rep.violation("variables_value_serialises_to_invalid_json", dict(m["label"], what_is_wrong=desc, at=path, accepted=variant),
+                              {"serialised_variables": got})
     cov = {
-        "evaluations": len(reqs), "distinct_nontrivial": len(distinct),
+        "evaluations": len(reqs) + len(neg_reqs), "distinct_nontrivial": len(distinct), "forbidden_assignments": len(neg_reqs),
         "rule": "operations: one per named input type {Int, Float, String, Boolean, ID, custom scalar, enum, input object, "
                 "recursive input object, @oneOf input} declaring a variable for every type expression of list depth <= %d, "
                 "plus special variable names (camelCase, keywords, leading underscore, SCREAMING) and an operation without "
                 "variables; x skip_serializing_none {off, on} x normalization {none, rust}; assignments = every choice vector "
                 "(null / value at each nullable member, list lengths 1/0/2, scalar boundary values, each enum value, each @oneOf "
                 "member, recursion depth <= 2) within deviation bound 2 of the richest assignment (1 when bound 2 exceeds the per-module cap: 2500 quick, 30000 thorough); "
-                "distinct = (operation, assignment)" % depth,
+                "distinct = (operation, assignment); plus, per module, every invalid neighbour of the richest assignments (null or "
+                "missing key at each non-null position, @oneOf with a null / no / two members): Deserialize must refuse it, "
+                "otherwise a Variables value exists that serialises to invalid JSON" % depth,
         "modules": len(mods), "distinct_outcomes": outcomes, "exhaustive": False,
         "per_module": pick_samples([{"what": m["what"], "options": m["opts"], "vectors": m.get("nvec"), "deviation_bound": m.get("dev")} for m in mods], 8),
         "samples": pick_samples([{"what": m["what"], "options": m["opts"], "assignment": a} for m, a in meta], 5),
